@@ -83,20 +83,25 @@ def _resolution(ctx):
     ctx.unit(ix.cls(RG).lookup_method("uniform").where())
     s = Rat.atom("s")
     centre = tuple(Rat.atom(f"c{a}") for a in range(3))
-    for shape in ((4, 6, 2), (2, 2, 8), (6, 4, 4)):
+    for shape in ((4, 6, 2), (2, 2, 8), (6, 4, 4), (3, 5, 2), (1, 4, 7)):
         results = {}
-        for label, q, attrs in (("UniformGrid", UG, dict(spacing=s, center=centre)), ("QuasiUniformGrid", QG, dict(dx=s, dy=s, dz=s, center=centre))):
+        for label, q, attrs in (("UniformGrid", UG, dict(spacing=s, center=centre)), ("QuasiUniformGrid", QG, dict(dx=s, dy=s, dz=s, center=centre)), ("RectilinearGrid.uniform", RG, None)):
+            if q == QG and any(n % 2 for n in shape):
+                continue  # the quasi-uniform policy rejects odd cell counts (its own documented contract)
             it = ctx.fresh_interp()
             it.ext_overrides["np.arange"] = lambda it_, a, k: NdArr((int(to_rat(a[0]).const_value()),), [Rat.const(i) for i in range(int(to_rat(a[0]).const_value()))])
             built = []
             _capture_rectilinear(it, ix, built)
-            pol = Obj(ix.cls(q), attrs, label)
             try:
-                it.call_method(pol, "resolve", shape)
+                if attrs is None:
+                    # the explicit description of the same grid: RectilinearGrid.uniform(shape, s, center=...) without origin
+                    it.call(it.getattr(ClassRef(ix.cls(q)), "uniform"), [shape, s], {"center": centre})
+                else:
+                    it.call_method(Obj(ix.cls(q), attrs, label), "resolve", shape)
             except Raised as r:
                 raise AnalysisError(f"{label}.resolve raises: {r}")
             if len(built) != 1:
-                ctx.ob("R38.1", f"{label}.resolve{shape}", False, "constructs exactly one RectilinearGrid", len(built), 1)
+                ctx.ob("R38.1", f"{label}{'' if attrs is None else '.resolve'}{shape}", False, "constructs exactly one RectilinearGrid", len(built), 1)
                 continue
             bad = None
             for a, nm in enumerate(("x_edges", "y_edges", "z_edges")):
@@ -109,32 +114,33 @@ def _resolution(ctx):
                     if not to_rat(v).equals(want):
                         bad = bad or (f"{nm}[{i}]", to_rat(v).fmt(), want.fmt())
             results[label] = built[0]
-            ctx.ob("R38.1", f"{label}.resolve{shape}", bad is None, "edge i of axis a is centre_a + s (i - n_a / 2): equal widths s, the domain centred on `center`, each axis with its own centre component and cell count" + (f" — differs at {bad[0]}" if bad else ""), bad[1] if bad else f"{sum(shape) + 3} edges", bad[2] if bad else "centre + s (i - n/2)")
+            ctx.ob("R38.1", f"{label}{'' if attrs is None else '.resolve'}{shape}", bad is None, "edge i of axis a is centre_a + s (i - n_a / 2): equal widths s, the domain centred on `center`, each axis with its own centre component and cell count" + (f" — differs at {bad[0]}" if bad else ""), bad[1] if bad else f"{sum(shape) + 3} edges", bad[2] if bad else "centre + s (i - n/2)")
     # shape derivation from a metric volume size
     f = ix.function("fdtdx.fdtd.initialization._resolve_grid_from_volume")
     ctx.unit(f.where())
     V = ix.cls("fdtdx.objects.static_material.static.SimulationVolume")
-    shapes = {}
-    for label, q, attrs in (("UniformGrid", UG, dict(spacing=Fr(1, 4), center=(0, 0, 0))), ("QuasiUniformGrid", QG, dict(dx=Fr(1, 4), dy=Fr(1, 4), dz=Fr(1, 4), center=(0, 0, 0)))):
-        it = ctx.fresh_interp()
-        seen = []
-        pol = Obj(ix.cls(q), dict(attrs, resolve=None), label)
+    for cen in ((0, 0, 0), (Fr(1, 2), Fr(-3, 4), Fr(1, 2))):
+      shapes = {}
+      for label, q, attrs in (("UniformGrid", UG, dict(spacing=Fr(1, 4), center=cen)), ("QuasiUniformGrid", QG, dict(dx=Fr(1, 4), dy=Fr(1, 4), dz=Fr(1, 4), center=cen))):
+          it = ctx.fresh_interp()
+          seen = []
+          pol = Obj(ix.cls(q), dict(attrs, resolve=None), label)
 
-        from ..values import Builtin
+          from ..values import Builtin
 
-        pol.attrs["resolve"] = Builtin("resolve", lambda it_, a, k, _s=seen: (_s.append(tuple(a[0])), Obj(ix.cls(RG), {}, "resolved"))[1])
-        vol = Obj(V, dict(name="volume", partial_grid_shape=(None, 6, None), partial_real_shape=(Fr(2), None, Fr(13, 8))), "volume")
-        from ..harness import stub_repo_calls
+          pol.attrs["resolve"] = Builtin("resolve", lambda it_, a, k, _s=seen: (_s.append(tuple(a[0])), Obj(ix.cls(RG), {}, "resolved"))[1])
+          vol = Obj(V, dict(name="volume", partial_grid_shape=(None, 6, None), partial_real_shape=(Fr(2), None, Fr(13, 8))), "volume")
+          from ..harness import stub_repo_calls
 
-        stub_repo_calls(it, {"_resolve_volume_name": lambda it_, a, k: "volume"})
-        cfg = Obj(ix.cls("fdtdx.config.SimulationConfig"), dict(grid=pol), "config")
-        try:
-            it.call(it.closure_of(f), [[vol], cfg], {})
-        except Raised as r:
-            raise AnalysisError(f"_resolve_grid_from_volume raises: {r}")
-        shapes[label] = seen
-    want = [(8, 6, round(Fr(13, 8) / Fr(1, 4)))]
-    ctx.ob("R38.1", "_resolve_grid_from_volume:shape", shapes.get("UniformGrid") == want and shapes.get("QuasiUniformGrid") == want, "both policies are resolved for the same cell counts: the given counts, else round(length / spacing) with the axis' own spacing", shapes, want)
+          stub_repo_calls(it, {"_resolve_volume_name": lambda it_, a, k: "volume"})
+          cfg = Obj(ix.cls("fdtdx.config.SimulationConfig"), dict(grid=pol), "config")
+          try:
+              it.call(it.closure_of(f), [[vol], cfg], {})
+          except Raised as r:
+              raise AnalysisError(f"_resolve_grid_from_volume raises: {r}")
+          shapes[label] = seen
+      want = [(8, 6, round(Fr(13, 8) / Fr(1, 4)))]
+      ctx.ob("R38.1", f"_resolve_grid_from_volume:shape[centre={tuple(str(c) for c in cen)}]", shapes.get("UniformGrid") == want and shapes.get("QuasiUniformGrid") == want, "both policies are resolved for the same cell counts: the given counts, else round(length / spacing) with the axis' own spacing", shapes, want)
     it = ctx.fresh_interp()
     explicit = Obj(ix.cls(RG), {}, "explicit")
     cfg = Obj(ix.cls("fdtdx.config.SimulationConfig"), dict(grid=explicit), "config")
